@@ -131,6 +131,22 @@ def build():
         U.fragment(MG_C, 'MoveGen_pseudoLegalMoves_tiled' + sfx, r'const U64 occupied = pos\.occupiedBB\(\);', B_SL, params=[('Position', 'pos', True), ('MoveList', 'moveList', True)],
                    cls='MoveGen', is_static=True, tsubst={'wtm': val},
                    epilogue='\n' + ''.join('    %s(pos, moveList, occupied);\n' % fr.cname for fr in frs), **PL_KW)
+    # MoveGen::pseudoLegalCaptures<wtm>: two fragments (queen/rook/bishop/knight loops; king + pawn sections) + composition.
+    # The pawn section assigns the local m declared in the king section, which is in the same fragment.
+    PC_KW = dict(within='MoveGen::pseudoLegalCaptures', within_kw=dict(nparams=2, template=True))
+    C_SL, C_KING = r'U64 squares = pos\.pieceTypeBB\(MyColor::QUEEN\);', r'Square sq = pos\.getKingSq\(wtm\);\s*U64 m = BitBoard::kingAttacks\(sq\)'
+    pc = find_function(U.src(MG_C), 'MoveGen::pseudoLegalCaptures', nparams=2, template=True)
+    mh = re.search(C_SL, pc.body)
+    if not mh or norm(pc.body[:mh.start()]) != 'using MyColor = ColorTraits<wtm>; const U64 occupied = pos.occupiedBB();':
+        raise ExtractError('tiling pin changed: statements of MoveGen::pseudoLegalCaptures before the queen loop')
+    for sfx, val in (('_w', 'true'), ('_b', 'false')):
+        frs = [U.fragment(MG_C, 'MoveGen_pseudoLegalCaptures_pieces' + sfx, C_SL, C_KING, params=PLP, cls='MoveGen', is_static=True, tsubst={'wtm': val}, prologue=USING1, **PC_KW),
+               U.fragment(MG_C, 'MoveGen_pseudoLegalCaptures_kingpawns' + sfx, C_KING, None, params=PLP, cls='MoveGen', is_static=True, tsubst={'wtm': val}, prologue=USING1, **PC_KW)]
+        for fr in frs:
+            U.tr.classes['MoveGen'].methods.setdefault((fr.cname, len(fr.params), False), {})[''] = fr
+        U.fragment(MG_C, 'MoveGen_pseudoLegalCaptures_tiled' + sfx, r'const U64 occupied = pos\.occupiedBB\(\);', C_SL, params=[('Position', 'pos', True), ('MoveList', 'moveList', True)],
+                   cls='MoveGen', is_static=True, tsubst={'wtm': val},
+                   epilogue='\n' + ''.join('    %s(pos, moveList, occupied);\n' % fr.cname for fr in frs), **PC_KW)
     for gen in ('pseudoLegalMoves', 'checkEvasions', 'pseudoLegalCaptures', 'pseudoLegalCapturesAndChecks'):
         P(MG_C, 'MoveGen::' + gen, nparams=2, template=True, tsubst={'wtm': 'true'}, suffix='_w', as_static=True)
         P(MG_C, 'MoveGen::' + gen, nparams=2, template=True, tsubst={'wtm': 'false'}, suffix='_b', as_static=True)
@@ -282,6 +298,14 @@ static _Bool spec_pawn_evasion(const struct Position* p, const struct Move* m, U
     if (pc != (p->whiteMove ? Piece_WPAWN : Piece_BPAWN)) return 0;
     if ((m->to_ & 7) != (m->from_ & 7)) return (p->squares[m->to_] != Piece_EMPTY && (vt & BITM(m->to_)) != 0) || m->to_ == p->epSquare;
     return (vt & BITM(m->to_)) != 0; }
+/* class of the capture generator: pseudo-legal captures (en passant included) and promotions; promotions to queen or knight only */
+static _Bool spec_capture_class(const struct Position* p, const struct Move* m) {
+    if (!spec_pseudo_legal(p, m)) return 0;
+    int pc = p->squares[m->from_]; _Bool w = p->whiteMove;
+    if (m->promoteTo_ != Piece_EMPTY) return PROMO_OK(w, 0, m->promoteTo_);
+    if (p->squares[m->to_] != Piece_EMPTY) return 1;
+    return (pc == Piece_WPAWN || pc == Piece_BPAWN) && m->to_ == p->epSquare && (m->to_ & 7) != (m->from_ & 7); }
+#define spec_them(p) ((p)->whiteMove ? spec_black(p) : spec_white(p))
 #define DOMAIN_COUNTS(p) (spec_popcount((p)->whiteBB_) <= 16 && spec_popcount((p)->blackBB_) <= 16)
 #pragma CPROVER check pop
 #ifdef COMPOSE_UF
@@ -307,6 +331,10 @@ _Bool __CPROVER_uninterpreted_pseudo_legal(const struct Position*, int, int, int
 #define spec_pawn_evasion(p, m, vt) __CPROVER_uninterpreted_pawn_ev(p, (m)->from_, (m)->to_, (m)->promoteTo_, vt)
 #define spec_gm_slider(p, kind, tg) __CPROVER_uninterpreted_gm_slider(p, kind, tg, ghost_m.from_, ghost_m.to_, ghost_m.promoteTo_)
 #define spec_pseudo_legal(p, m) __CPROVER_uninterpreted_pseudo_legal(p, (m)->from_, (m)->to_, (m)->promoteTo_)
+_Bool __CPROVER_uninterpreted_capture_class(const struct Position*, int, int, int); U64 __CPROVER_uninterpreted_them(const struct Position*);
+#define spec_capture_class(p, m) __CPROVER_uninterpreted_capture_class(p, (m)->from_, (m)->to_, (m)->promoteTo_)
+#undef spec_them
+#define spec_them(p) __CPROVER_uninterpreted_them(p)
 #endif
 '''
 
@@ -472,7 +500,7 @@ for _sfx, _me in (('_w', 1), ('_b', 0)):
     # composition of the three fragments: the generated list is exactly the set of evasion candidates, each once
     CONTRACTS['MoveGen_checkEvasions_tiled' + _sfx] = {
         # the ghost values of the piece-section contract are defined here as well (free ghost variables: no restriction of the program state)
-        'requires': _pre + ['__CPROVER_is_fresh(moveList, sizeof(*moveList))', 'GM_OK', '0 <= ghost_hits && ghost_hits < 1000']
+        'requires': _pre + ['__CPROVER_is_fresh(moveList, sizeof(*moveList))', 'GM_OK', '0 <= ghost_hits && ghost_hits < 900']
                     + [r.replace('validTargets', 'spec_evasion_targets(pos)') for r in CONTRACTS['MoveGen_checkEvasions_pieces' + _sfx]['requires'] if r.startswith('ghost_')],
         'assigns': ['moveList->size', 'ghost_hits'],
         'ensures': ['ghost_hits == __CPROVER_old(ghost_hits) + (spec_evasion_candidate(pos, &ghost_m) ? 1 : 0)']}
@@ -509,6 +537,35 @@ for _sfx, _me in (('_w', 1), ('_b', 0)):
         'assigns': ['moveList->size', 'ghost_hits'],
         'ensures': _plpost('GM_FROM_OWN(pos)')}
 
+for _sfx, _me in (('_w', 1), ('_b', 0)):
+    _K, _Q, _R, _B, _N, _P = (('Piece_WKING', 'Piece_WQUEEN', 'Piece_WROOK', 'Piece_WBISHOP', 'Piece_WKNIGHT', 'Piece_WPAWN') if _me else
+                              ('Piece_BKING', 'Piece_BQUEEN', 'Piece_BROOK', 'Piece_BBISHOP', 'Piece_BKNIGHT', 'Piece_BPAWN'))
+    _mpre = _EVPRE + ['pos->whiteMove == %d' % _me, '__CPROVER_is_fresh(moveList, sizeof(*moveList))', 'occupied == spec_occ(pos->squares)', 'GM_OK', '0 <= ghost_hits && ghost_hits < 1000']
+    def _cpost(cond):
+        return ['ghost_hits == __CPROVER_old(ghost_hits) + (((%s) && spec_capture_class(pos, &ghost_m)) ? 1 : 0)' % cond]
+    _g = ['ghost_hits0 == ghost_hits', 'ghost_tg == spec_them(pos)',
+          'ghost_Q0 == pos->pieceTypeBB_[%s] && ghost_R0 == pos->pieceTypeBB_[%s] && ghost_B0 == pos->pieceTypeBB_[%s] && ghost_N0 == pos->pieceTypeBB_[%s]' % (_Q, _R, _B, _N),
+          'ghost_tQ == spec_gm_slider(pos, Piece_WQUEEN, ghost_tg)', 'ghost_tR == spec_gm_slider(pos, Piece_WROOK, ghost_tg)', 'ghost_tB == spec_gm_slider(pos, Piece_WBISHOP, ghost_tg)',
+          'ghost_tN == spec_gm_slider(pos, Piece_WKNIGHT, ghost_tg)']
+    def _acc(upto):
+        t = 'ghost_hits0'
+        for k, (st, fl) in enumerate((('ghost_Q0', 'ghost_tQ'), ('ghost_R0', 'ghost_tR'), ('ghost_B0', 'ghost_tB'), ('ghost_N0', 'ghost_tN'))):
+            if upto > k: t += ' + ((((%s >> ghost_m.from_) & 1) && %s) ? 1 : 0)' % (st, fl)
+        return t
+    def _lp(var, st, fl, upto):
+        return {'assigns': '%s, moveList->size, ghost_hits' % var,
+                'invariant': ['(%s & ~%s) == 0' % (var, st), 'ghost_hits == %s + (((((%s & ~%s) >> ghost_m.from_) & 1) && %s) ? 1 : 0)' % (_acc(upto), st, var, fl)]}
+    CONTRACTS['MoveGen_pseudoLegalCaptures_pieces' + _sfx] = {
+        'requires': _mpre + _g, 'assigns': ['moveList->size', 'ghost_hits'],
+        'ensures': _cpost('GM_FROM_IS(pos, %s) || GM_FROM_IS(pos, %s) || GM_FROM_IS(pos, %s) || GM_FROM_IS(pos, %s)' % (_Q, _R, _B, _N)),
+        'loops': {0: _lp('squares', 'ghost_Q0', 'ghost_tQ', 0), 1: _lp('squares', 'ghost_R0', 'ghost_tR', 1), 2: _lp('squares', 'ghost_B0', 'ghost_tB', 2), 3: _lp('knights', 'ghost_N0', 'ghost_tN', 3)}}
+    CONTRACTS['MoveGen_pseudoLegalCaptures_kingpawns' + _sfx] = {
+        'requires': _mpre, 'assigns': ['moveList->size', 'ghost_hits'], 'ensures': _cpost('GM_FROM_IS(pos, %s) || GM_FROM_IS(pos, %s)' % (_K, _P))}
+    # composition (COMPOSE_UF): the list is exactly the capture class (of own pieces: lemma pl_own), each move once
+    CONTRACTS['MoveGen_pseudoLegalCaptures_tiled' + _sfx] = {
+        'requires': _EVPRE + ['pos->whiteMove == %d' % _me, '__CPROVER_is_fresh(moveList, sizeof(*moveList))', 'GM_OK', '0 <= ghost_hits && ghost_hits < 900'] + _g,
+        'assigns': ['moveList->size', 'ghost_hits'], 'ensures': _cpost('GM_FROM_OWN(pos)')}
+
 HARNESS = posunit.HARNESS.split('void h_setPiece')[0] + r'''
 void h_sqAttacked_w(void) { struct Position* p; int sq; U64 occ; havoc_tables(); MoveGen_sqAttacked_w(p, sq, occ); CANARY_POINT; }
 void h_sqAttacked_b(void) { struct Position* p; int sq; U64 occ; havoc_tables(); MoveGen_sqAttacked_b(p, sq, occ); CANARY_POINT; }
@@ -542,6 +599,12 @@ void h_pl_tiled_b(void) { struct Position* p; struct MoveList* ml; havoc_tables(
 /* lemma (real spec): a pseudo-legal move moves a piece of the side to move */
 void h_lemma_pl_own(void) { struct Position p; __CPROVER_havoc_object(&p); havoc_gm(); __CPROVER_assume(FLAGS_OK(&p) && GM_OK);
     __CPROVER_assert(!spec_pseudo_legal(&p, &ghost_m) || GM_FROM_OWN(&p), "lemma: pseudo-legal moves move an own piece"); CANARY_POINT; }
+void h_pc_pieces_w(void) { struct Position* p; struct MoveList* ml; U64 occ; havoc_tables(); havoc_gm(); MoveGen_pseudoLegalCaptures_pieces_w(p, ml, occ); CANARY_POINT; }
+void h_pc_pieces_b(void) { struct Position* p; struct MoveList* ml; U64 occ; havoc_tables(); havoc_gm(); MoveGen_pseudoLegalCaptures_pieces_b(p, ml, occ); CANARY_POINT; }
+void h_pc_kingpawns_w(void) { struct Position* p; struct MoveList* ml; U64 occ; havoc_tables(); havoc_gm(); MoveGen_pseudoLegalCaptures_kingpawns_w(p, ml, occ); CANARY_POINT; }
+void h_pc_kingpawns_b(void) { struct Position* p; struct MoveList* ml; U64 occ; havoc_tables(); havoc_gm(); MoveGen_pseudoLegalCaptures_kingpawns_b(p, ml, occ); CANARY_POINT; }
+void h_pc_tiled_w(void) { struct Position* p; struct MoveList* ml; havoc_tables(); havoc_gm(); MoveGen_pseudoLegalCaptures_tiled_w(p, ml); CANARY_POINT; }
+void h_pc_tiled_b(void) { struct Position* p; struct MoveList* ml; havoc_tables(); havoc_gm(); MoveGen_pseudoLegalCaptures_tiled_b(p, ml); CANARY_POINT; }
 void h_occupiedBB(void) { struct Position* p; havoc_tables(); Position_occupiedBB(p); CANARY_POINT; }
 void h_evasion_head_w(void) { struct Position* p; U64 occ; havoc_tables(); MoveGen_checkEvasions_head_w(p, occ); CANARY_POINT; }
 void h_evasion_head_b(void) { struct Position* p; U64 occ; havoc_tables(); MoveGen_checkEvasions_head_b(p, occ); CANARY_POINT; }
@@ -583,12 +646,21 @@ for _sfx in ('_w', '_b'):
     GROUPS.append(Group('pseudoLegalMoves_tiled' + _sfx, 'h_pl_tiled' + _sfx, enforce=_pf + 'tiled' + _sfx, defines=('COMPOSE_UF=1',),
                         replace=('Position_occupiedBB',) + tuple(_pf + x + _sfx for x in ('sliders', 'king', 'knights', 'pawns')), min_props=5, timeout=3000,
                         note='composition of the four fragment contracts; spec functions uninterpreted (COMPOSE_UF)'))
+for _sfx in ('_w', '_b'):
+    _pf = 'MoveGen_pseudoLegalCaptures_'
+    GROUPS.append(Group('pseudoLegalCaptures_pieces' + _sfx, 'h_pc_pieces' + _sfx, enforce=_pf + 'pieces' + _sfx, replace=_ATT + ('MoveGen_addMovesByMask', 'BitBoard_extractSquare'),
+                        loop_contracts=True, min_props=10, expect_loop_props=4, timeout=3000))
+    GROUPS.append(Group('pseudoLegalCaptures_kingpawns' + _sfx, 'h_pc_kingpawns' + _sfx, enforce=_pf + 'kingpawns' + _sfx,
+                        replace=_ATT + ('MoveGen_addMovesByMask', 'MoveGen_addPawnDoubleMovesByMask', 'MoveGen_addPawnMovesByMask_w', 'MoveGen_addPawnMovesByMask_b'), min_props=10, timeout=3000))
+    GROUPS.append(Group('pseudoLegalCaptures_tiled' + _sfx, 'h_pc_tiled' + _sfx, enforce=_pf + 'tiled' + _sfx, defines=('COMPOSE_UF=1',),
+                        replace=('Position_occupiedBB', _pf + 'pieces' + _sfx, _pf + 'kingpawns' + _sfx), min_props=5, timeout=3000,
+                        note='composition of the two fragment contracts; spec functions uninterpreted (COMPOSE_UF)'))
 GROUPS.append(Group('lemma_pl_own', 'h_lemma_pl_own', min_props=1))
 GROUPS.append(Group('occupiedBB', 'h_occupiedBB', enforce='Position_occupiedBB', min_props=2))
 for _sfx in ('_w', '_b'):
     GROUPS.append(Group('checkEvasions_head' + _sfx, 'h_evasion_head' + _sfx, enforce='MoveGen_checkEvasions_head' + _sfx,
                         replace=_ATT + ('BitBoard_firstSquare', 'BitBoard_squaresBetween'), min_props=10, timeout=3000))
-    GROUPS.append(Group('checkEvasions_pieces' + _sfx, 'h_evasion_pieces' + _sfx, enforce='MoveGen_checkEvasions_pieces' + _sfx,
+    GROUPS.append(Group('checkEvasions_pieces' + _sfx, 'h_evasion_pieces' + _sfx, enforce='MoveGen_checkEvasions_pieces' + _sfx, tier='thorough',
                         replace=_ATT + ('MoveGen_addMovesByMask', 'BitBoard_extractSquare'), loop_contracts=True, min_props=10, expect_loop_props=4, timeout=3000))
     GROUPS.append(Group('checkEvasions_tiled' + _sfx, 'h_evasion_tiled' + _sfx, enforce='MoveGen_checkEvasions_tiled' + _sfx, defines=('COMPOSE_UF=1',),
                         replace=('Position_occupiedBB', 'MoveGen_checkEvasions_head' + _sfx, 'MoveGen_checkEvasions_pieces' + _sfx, 'MoveGen_checkEvasions_pawns' + _sfx), min_props=5, timeout=3000,
@@ -603,8 +675,12 @@ GROUPS.append(Group('isLegal', 'h_isLegal', enforce='MoveGen_isLegal',
                     cases=('case', [('CASE_IC=%d' % ic, 'CASE_PT=%d' % pt) for ic in (0, 1) for pt in range(6)])))
 # groups that are part of the C01 claim (the others are built but did not close yet: run them with --only)
 CLAIMED = ['sqAttacked_w', 'sqAttacked_b', 'sqAttacked3', 'sqAttacked2', 'inCheck', 'addMovesByMask', 'addPawnDoubleMovesByMask', 'addPawnMovesByMask_w', 'addPawnMovesByMask_b',
-           'checkEvasions_pawns_w', 'checkEvasions_pawns_b',
-           'givesCheck']   # givesCheck: thorough tier only (6 cases, 10-36 min each)
+           'occupiedBB', 'lemma_pl_own']
+for _sfx in ('_w', '_b'):
+    CLAIMED += ['pseudoLegalMoves_%s%s' % (x, _sfx) for x in ('sliders', 'king', 'knights', 'pawns', 'tiled')]
+    CLAIMED += ['pseudoLegalCaptures_%s%s' % (x, _sfx) for x in ('pieces', 'kingpawns', 'tiled')]
+    CLAIMED += ['checkEvasions_%s%s' % (x, _sfx) for x in ('head', 'pieces', 'pawns', 'tiled')]   # pieces: thorough tier (15 min each)
+CLAIMED += ['givesCheck']   # givesCheck: thorough tier only (6 cases, 10-36 min each)
 PROPERTIES = {'C01': CLAIMED}
 ASSUMPTIONS = {'C01': [
     'assumed contracts (stubs): BitBoard::rookAttacks / bishopAttacks return the ray sets over the given occupancy (magic lookup and its tables are not proved)',
@@ -612,9 +688,10 @@ ASSUMPTIONS = {'C01': [
     'assumed contract: MoveList::addMove appends exactly its move (placement new into the int buffer, text pinned); A-MAXMOVES: the capacity of 256 moves is never exceeded',
     'position domain: bitboards consistent with the board (wf_bb), one king per side, no pawns on the first/last rank, castling rights imply king and rook on their squares, en-passant square as makeMove establishes it',
 ]}
-NOT_DECIDED = {'C01': ['isLegal (verdict == playing the move): contract written, complete 12-way case split; the two king-move cases are discharged (24 and 42 min), the ten other cases did not finish in 50 min each: not claimed', 'removeIllegal (not under contract)',
-                       'the generators pseudoLegalMoves / checkEvasions / pseudoLegalCaptures / pseudoLegalCapturesAndChecks (checkEvasions contract written; status in DESIGN)',
-                       'sliding-attack magic tables, attack table initialisation, FEN text layer']}
+NOT_DECIDED = {'C01': ['isLegal (verdict == playing the move): contract written, complete 12-way case split; the two king-move cases are discharged (24 and 42 min), the other cases did not finish in 50 min each: not claimed',
+                       'removeIllegal (legality filter with the king-ray shortcut): not under contract; hence "the set treated as legal == the legal moves" is decided only up to the legality filter (pseudo-legal generation and the evasion candidates are exact)',
+                       'pseudoLegalCapturesAndChecks (over-approximating generator with discovered-check masks): not under contract',
+                       'sliding-attack magic tables, initialisation of squaresBetweenTable, FEN text layer, MoveList capacity']}
 
 MUTANTS = [
     dict(name='sqAttacked_pawn_colour', file='lib/texellib/moveGen.hpp', pattern=r'        if \(\(BitBoard::wPawnAttacks\(sq\) & pos.pieceTypeBB\(OtherColor::PAWN\)\) != 0\)', repl='        if ((BitBoard::bPawnAttacks(sq) & pos.pieceTypeBB(OtherColor::PAWN)) != 0)', groups=['sqAttacked_w']),
@@ -625,6 +702,16 @@ MUTANTS = [
     dict(name='promotion_rook_always', file='lib/texellib/moveGen.hpp', pattern=r'        if \(allPromotions\) \{', repl='        if (true) {', groups=['addPawnMovesByMask_w']),
     dict(name='addMoves_from_to_swapped', file='lib/texellib/moveGen.hpp', pattern=r'        moveList.addMove\(sq0, sq, Piece::EMPTY\);', repl='        moveList.addMove(sq, sq0, Piece::EMPTY);', groups=['addMovesByMask']),
     dict(name='pawn_double_delta', file='lib/texellib/moveGen.hpp', pattern=r'MoveGen::addPawnDoubleMovesByMask\(MoveList& moveList, U64 mask, int delta\) \{\n    while \(mask != 0\) \{\n        Square sq = BitBoard::extractSquare\(mask\);\n        moveList.addMove\(sq \+ delta, sq, Piece::EMPTY\);', repl='MoveGen::addPawnDoubleMovesByMask(MoveList& moveList, U64 mask, int delta) {\n    while (mask != 0) {\n        Square sq = BitBoard::extractSquare(mask);\n        moveList.addMove(sq + delta / 2, sq, Piece::EMPTY);', groups=['addPawnDoubleMovesByMask']),
+    dict(name='castle_cross_square', file='lib/texellib/moveGen.cpp', pattern=r'!sqAttacked\(pos, k0 \+ 1\)\) \{', repl='!sqAttacked(pos, k0 + 2)) {', groups=['pseudoLegalMoves_king_w']),
+    dict(name='castle_ooo_b1_ignored', file='lib/texellib/moveGen.cpp', pattern=r'BitBoard::sqMask\(B1,C1,D1\)', repl='BitBoard::sqMask(C1,D1)', groups=['pseudoLegalMoves_king_w']),
+    dict(name='pl_double_push_row', file='lib/texellib/moveGen.cpp', pattern=r'm = \(\(m & BitBoard::maskRow3\) << 8\) & ~occupied;\n        addPawnDoubleMovesByMask\(moveList, m, -16\);', repl='m = ((m & BitBoard::maskRow4) << 8) & ~occupied;\n        addPawnDoubleMovesByMask(moveList, m, -16);', groups=['pseudoLegalMoves_pawns_w']),
+    dict(name='pl_capture_file_mask', file='lib/texellib/moveGen.cpp', pattern=r'm = \(pawns << 7\) & BitBoard::maskAToGFiles & \(pos.colorBB\(!wtm\) \| epMask\);', repl='m = (pawns << 7) & BitBoard::maskBToHFiles & (pos.colorBB(!wtm) | epMask);', groups=['pseudoLegalMoves_pawns_w']),
+    dict(name='pl_black_knight_own', file='lib/texellib/moveGen.cpp', pattern=r'U64 m = BitBoard::knightAttacks\(sq\) & ~pos.colorBB\(wtm\);', repl='U64 m = BitBoard::knightAttacks(sq) & ~pos.colorBB(true);', groups=['pseudoLegalMoves_knights_b']),
+    dict(name='caps_push_not_only_promotion', file='lib/texellib/moveGen.cpp', pattern=r'        m &= BitBoard::maskRow8;\n', repl='', groups=['pseudoLegalCaptures_kingpawns_w']),
+    dict(name='caps_knight_quiet', file='lib/texellib/moveGen.cpp', pattern=r'U64 m = BitBoard::knightAttacks\(sq\) & pos.colorBB\(!wtm\);', repl='U64 m = BitBoard::knightAttacks(sq) & ~pos.colorBB(wtm);', groups=['pseudoLegalCaptures_pieces_w']),
+    dict(name='evasion_double_check_targets', file='lib/texellib/moveGen.cpp', pattern=r'\(\(kingThreats & \(kingThreats-1\)\) == 0\)', repl='((kingThreats & (kingThreats-1)) != 0)', groups=['checkEvasions_head_w']),
+    dict(name='evasion_pawn_threat_colour', file='lib/texellib/moveGen.cpp', pattern=r'const U64 myPawnAttacks = wtm \? BitBoard::wPawnAttacks\(kingSq\) : BitBoard::bPawnAttacks\(kingSq\);', repl='const U64 myPawnAttacks = wtm ? BitBoard::bPawnAttacks(kingSq) : BitBoard::wPawnAttacks(kingSq);', groups=['checkEvasions_head_b']),
+    dict(name='evasion_ep_dropped', file='lib/texellib/moveGen.cpp', pattern=r'm = \(pawns << 9\) & BitBoard::maskBToHFiles & \(\(pos.colorBB\(!wtm\) & validTargets\) \| epMask\);', repl='m = (pawns << 9) & BitBoard::maskBToHFiles & ((pos.colorBB(!wtm) | epMask) & validTargets);', groups=['checkEvasions_pawns_w']),
     dict(name='givesCheck_ep_discovered', file='lib/texellib/moveGen.cpp', pattern=r'                case 9: case 7: case -9: case -7:\n                    if \(nextPiece\(pos, epSq, d3\) == oKing\) \{', repl='                case 9: case 7: case -9:\n                    if (nextPiece(pos, epSq, d3) == oKing) {', groups=['givesCheck']),
     dict(name='givesCheck_castle_rook_file', file='lib/texellib/moveGen.cpp', pattern=r'            if \(nextPieceSafe\(pos, m.from\(\) \+ 1, wtm \? 8 : -8\) == oKing\)', repl='            if (nextPieceSafe(pos, m.from() + 2, wtm ? 8 : -8) == oKing)', groups=['givesCheck']),
     dict(name='givesCheck_pawn_direction', file='lib/texellib/moveGen.cpp', pattern=r'if \(\(\(d1 > 0\) == wtm\) && \(pos.getPiece\(m.to\(\) \+ d1\) == oKing\)\)', repl='if ((pos.getPiece(m.to() + d1) == oKing))', groups=['givesCheck']),
